@@ -1352,6 +1352,82 @@ var rec1Table = map[string]string{
 	"internal/geom.(Polygon).String":                          "not recursive on data",
 }
 
+// rec1Reviewed looks the function up in the reviewed table by package and bare name, so that turning a function into a
+// method (or back) keeps its entry.
+func rec1Reviewed(f *ssa.Function) string {
+	if s := rec1Table[funcKey(f)]; s != "" {
+		return s
+	}
+	bare := func(k string) string {
+		// "(*pkg.T).name" / "pkg.(T).name" / "pkg.name" -> "pkg:name"
+		name := k[strings.LastIndex(k, ".")+1:]
+		pkg := strings.TrimLeft(k, "(*")
+		if i := strings.Index(pkg, "."); i >= 0 {
+			pkg = pkg[:i]
+		}
+		return pkg + ":" + name
+	}
+	want := shortPkg(pkgPathOf(f)) + ":" + f.Name()
+	found, n := "", 0
+	for k, v := range rec1Table {
+		if bare(k) == want {
+			found = v
+			n++
+		}
+	}
+	if n == 1 {
+		return found
+	}
+	return "" // ambiguous bare name (two reviewed functions share it): only the exact key counts
+}
+
+// flagGuardedFixpoint: every recursive call of f is control-dependent on the true branch of a boolean phi that is fed by
+// constants only (a "something changed" flag).
+func flagGuardedFixpoint(f *ssa.Function) bool {
+	self := staticCalls(f, func(c *ssa.Function) bool { return c == f })
+	if len(self) == 0 {
+		return false
+	}
+	for _, s := range self {
+		ok := false
+		for _, d := range controlDeps(s.Block()) {
+			p, isPhi := d.If.Cond.(*ssa.Phi)
+			if !isPhi || d.Branch != 0 {
+				continue
+			}
+			if b, isB := p.Type().Underlying().(*types.Basic); !isB || b.Kind() != types.Bool {
+				continue
+			}
+			onlyConst := true
+			seen := map[*ssa.Phi]bool{}
+			var walk func(p *ssa.Phi)
+			walk = func(p *ssa.Phi) {
+				if seen[p] {
+					return
+				}
+				seen[p] = true
+				for _, e := range p.Edges {
+					switch x := e.(type) {
+					case *ssa.Const:
+					case *ssa.Phi:
+						walk(x)
+					default:
+						onlyConst = false
+					}
+				}
+			}
+			walk(p)
+			if onlyConst {
+				ok = true
+			}
+		}
+		if !ok {
+			return false
+		}
+	}
+	return true
+}
+
 func runRec1(m *Model, r *RuleResult) {
 	// nesting: literal -> top function
 	top := func(f *ssa.Function) *ssa.Function {
@@ -1411,23 +1487,21 @@ func runRec1(m *Model, r *RuleResult) {
 		guarded := false
 		how := ""
 		eachInstr(t, func(in ssa.Instruction) {
-			lk, ok := in.(*ssa.Lookup)
-			if !ok || paramIndex(t, lk.Index) < 0 {
+			iff0, ok := in.(*ssa.If)
+			if !ok {
 				return
 			}
-			o := mapOriginFamily(lk.X, t, t)
+			lkX, lkIndex, ok := membershipTest(iff0.Cond)
+			if !ok || paramIndex(t, lkIndex) < 0 {
+				return
+			}
+			o := mapOriginFamily(lkX, t, t)
 			// controls an early return?
 			early := false
-			if refs := lk.Referrers(); refs != nil {
-				for _, ref := range *refs {
-					if iff, ok := ref.(*ssa.If); ok {
-						for _, s := range iff.Block().Succs {
-							if len(s.Instrs) > 0 {
-								if _, isRet := s.Instrs[len(s.Instrs)-1].(*ssa.Return); isRet && len(s.Instrs) <= 2 {
-									early = true
-								}
-							}
-						}
+			for _, s := range iff0.Block().Succs {
+				if len(s.Instrs) > 0 {
+					if _, isRet := s.Instrs[len(s.Instrs)-1].(*ssa.Return); isRet && len(s.Instrs) <= 2 {
+						early = true
 					}
 				}
 			}
@@ -1435,7 +1509,7 @@ func runRec1(m *Model, r *RuleResult) {
 				return
 			}
 			for _, mk := range marks {
-				if mk.orig == o && mk.fn == t && mk.key == lk.Index {
+				if mk.orig == o && mk.fn == t && mk.key == lkIndex {
 					dom := true
 					for _, s := range sites {
 						if s.fn == t && !instrDominates(mk.in, s.in) {
@@ -1455,31 +1529,23 @@ func runRec1(m *Model, r *RuleResult) {
 			for _, s := range sites {
 				ok := false
 				for _, d := range transitiveControlDeps(s.in.Block()) {
-					var lk *ssa.Lookup
-					switch c := d.If.Cond.(type) {
-					case *ssa.Lookup:
-						lk = c
-					case *ssa.UnOp:
-						if c.Op == token.NOT {
-							lk, _ = c.X.(*ssa.Lookup)
-						}
-					}
-					if lk == nil {
+					lkX, lkIndex, isTest := membershipTest(d.If.Cond)
+					if !isTest {
 						continue
 					}
-					o := mapOriginFamily(lk.X, s.fn, t)
+					o := mapOriginFamily(lkX, s.fn, t)
 					for _, mk := range marks {
 						if mk.orig != o {
 							continue
 						}
 						// mark in the same function dominating the site with the same key, or mark at entry of t keyed by the param
-						if mk.fn == s.fn && mk.key == lk.Index && instrDominates(mk.in, s.in) {
+						if mk.fn == s.fn && mk.key == lkIndex && instrDominates(mk.in, s.in) {
 							ok = true
 						}
 						if mk.fn == t && mk.param >= 0 {
 							// lookup key must be the argument passed for that parameter
 							args := s.in.Common().Args
-							if mk.param < len(args) && args[mk.param] == lk.Index {
+							if mk.param < len(args) && args[mk.param] == lkIndex {
 								okDom := true
 								for _, s2 := range sites {
 									if s2.fn == t && !instrDominates(mk.in, s2.in) {
@@ -1505,14 +1571,66 @@ func runRec1(m *Model, r *RuleResult) {
 		switch {
 		case guarded:
 			r.add(Obligation{Key: key, Pos: pos, Desc: "recursion has a mark-and-test guard: " + how, Verdict: "holds", Control: ctl})
-		case rec1Table[funcKey(t)] != "" && !ctl:
-			r.add(Obligation{Key: key, Pos: pos, Desc: "recursion without a mark-and-test guard; reviewed: " + rec1Table[funcKey(t)], Verdict: "holds"})
+		case flagGuardedFixpoint(t) && !ctl:
+			r.add(Obligation{Key: key, Pos: pos, Desc: "fix-point on a flag: the only recursive calls are taken when a boolean flag was set during this run of the body; each repetition strictly increases a coordinate (PROG-1); an upper bound on the coordinates, hence convergence, is not decided statically", Verdict: "holds"})
+			r.stat("flag_fixpoints", 1)
+		case rec1Reviewed(t) != "" && !ctl:
+			r.add(Obligation{Key: key, Pos: pos, Desc: "recursion without a mark-and-test guard; reviewed: " + rec1Reviewed(t), Verdict: "holds"})
 			r.stat("table_entries_used", 1)
 		default:
 			r.add(Obligation{Key: key, Pos: pos, Desc: "recursive function without a mark-and-test guard", Verdict: "violation",
 				Detail: "no set is marked for the visited element before recursing and tested at the call or at entry: on any cycle of the traversed structure the recursion never ends (stack overflow aborts the process)", Control: ctl})
 		}
 	}
+}
+
+// membershipTest recognises a set-membership test in a branch condition (negation stripped): m[k] on a bool-valued map,
+// the ok of `_, ok := m[k]`, or a call of a one-line accessor that returns one of those for its own parameters.
+func membershipTest(c ssa.Value) (mp, key ssa.Value, ok bool) {
+	for {
+		u, isU := c.(*ssa.UnOp)
+		if !isU || u.Op != token.NOT {
+			break
+		}
+		c = u.X
+	}
+	switch x := c.(type) {
+	case *ssa.Lookup:
+		if !x.CommaOk {
+			return x.X, x.Index, true
+		}
+	case *ssa.Extract:
+		if lk, isLk := x.Tuple.(*ssa.Lookup); isLk && lk.CommaOk && x.Index == 1 {
+			return lk.X, lk.Index, true
+		}
+	case *ssa.Call:
+		cal := x.Call.StaticCallee()
+		if cal == nil || len(cal.Blocks) != 1 {
+			return nil, nil, false
+		}
+		ret, isRet := cal.Blocks[0].Instrs[len(cal.Blocks[0].Instrs)-1].(*ssa.Return)
+		if !isRet || len(ret.Results) != 1 {
+			return nil, nil, false
+		}
+		m2, k2, ok2 := membershipTest(ret.Results[0])
+		if !ok2 {
+			return nil, nil, false
+		}
+		mi, ki := -1, -1
+		for i, p := range cal.Params {
+			if ssa.Value(p) == m2 {
+				mi = i
+			}
+			if ssa.Value(p) == k2 {
+				ki = i
+			}
+		}
+		if mi < 0 || ki < 0 || mi >= len(x.Call.Args) || ki >= len(x.Call.Args) {
+			return nil, nil, false
+		}
+		return x.Call.Args[mi], x.Call.Args[ki], true
+	}
+	return nil, nil, false
 }
 
 // mapOriginFamily names a map value so that the same map seen from a function and from its nested literals compares equal.
@@ -1668,6 +1786,12 @@ func runCap1(m *Model, r *RuleResult) {
 				ctr, bound = bo.X, bo.Y
 			default:
 				continue
+			}
+			// rotated loops (range over an integer) test the incremented counter: phi + 1 < bound
+			if cb, ok := ctr.(*ssa.BinOp); ok && cb.Op == token.ADD {
+				if c, isC := constInt(cb.Y); isC && c == 1 {
+					ctr = cb.X
+				}
 			}
 			phi, isPhi := ctr.(*ssa.Phi)
 			if !isPhi || !l.Body[phi.Block()] {
